@@ -31,7 +31,9 @@ Record Laws (O : Ops) : Prop := mkLaws {
      cexp O (cmul O (ci O) (cmul O (cmul O (cofZ O 2%Z) (cpi O)) (cdiv O (cofZ O k) (cofZ O (Z.of_nat n))))) = c1 O ->
      (Z.of_nat n | k)%Z;
   (* the order test is irreflexive (used for `xm**2 + ym**2 > 0.0` at the origin) *)
-  L_ltb_irrefl : forall x, cltb O x x = false
+  L_ltb_irrefl : forall x, cltb O x x = false;
+  (* int(0.0) = 0 (a zero halo pads nothing) *)
+  L_trunc_0 : ctrunc O (c0 O) = 0%Z
 }.
 
 Section Facts.
